@@ -100,6 +100,13 @@ def main():
                         # witness rules once more on a branch where a PREDECESSOR world (1 R 0) already carries the
                         # witness sentences: a new world is still required
                         variants += [dict(v, setup='noaccess', pred_has_witness=True) for v in info['variants'] if v['setup'] == 'noaccess']
+                    if kind == 'quant' and not info.get('ticking') and k == 0:
+                        # per-constant rules once more on a branch whose ONLY constant is mentioned by the principal
+                        # node's own body: the rule must instantiate with it
+                        body_c = (lambda p, body=body: Operator.Conjunction(body(p), Predicated(G, (pr.Ctx().ca,))))
+                        ctx_c = pr.Ctx(A2, B2, body_c, x)
+                        variants += [dict(v, setup_apply='empty', ctx=ctx_c, s=pr.principal(info, ctx_c)[0])
+                                     for v in info['variants'] if v['setup'] == 'consts']
                     for var in variants:
                         extra_nodes = None
                         if var.get('pred_has_witness'):
@@ -110,7 +117,8 @@ def main():
                                     for n in g:
                                         if 's' in n and n.get('w') == 'new':
                                             extra_nodes.append(sdwnode(inst(n['s'], ctx, None, ctx.ca), n['d'], 1))
-                        applied, env = pr.apply_rule(logic, info, ctx, var['setup'], s, extra_nodes)
+                        cx = var.get('ctx', ctx)
+                        applied, env = pr.apply_rule(logic, info, cx, var.get('setup_apply', var['setup']), var.get('s', s), extra_nodes)
                         w0 = env['w']
                         exp_all, got_all = [], []
                         if len(applied) != len(var['applied']):
@@ -124,7 +132,7 @@ def main():
                             # the fresh items the rule is entitled to use
                             consts = sorted(env['old_consts'])
                             newc = (max(consts).next() if consts else Constant.first())
-                            anyc = ctx.ca
+                            anyc = cx.ca
                             neww = (max(env['old_worlds']) + 1) if env['old_worlds'] else 0
                             def wv(t):
                                 return {None: None, 'same': w0, 'new': neww, 'acc': 1, 'missing': None}[t]
@@ -133,7 +141,7 @@ def main():
                                 eg = []
                                 for n in g:
                                     if 's' in n:
-                                        eg.append(['s', str(inst(n['s'], ctx, newc, anyc)), n['d'], wv(n['w'])])
+                                        eg.append(['s', str(inst(n['s'], cx, newc, anyc)), n['d'], wv(n['w'])])
                                     elif 'acc' in n:
                                         eg.append(['a', wv(n['acc'][0]), wv(n['acc'][1])])
                                     else:
